@@ -208,6 +208,14 @@ func genScenario(o world.Opts) *Scenario {
 		sc.Plugins = append(sc.Plugins, genScript([]string{"plgalpha", "plgbeta", "plggamma"}[i], faultP, i))
 	}
 	if o.Prop == "C17" {
+		if np >= 2 && simrt.Flip("c17.same-plugin-twice", 0.15) {
+			// `-p "gen --flavor=a" -p "gen --flavor=b"`: two processes of one plugin are two sources
+			a := simrt.Choice("c17.twice-of", np-1)
+			b := a + 1 + simrt.Choice("c17.twice-is", np-1-a)
+			sc.Plugins[b].Name = sc.Plugins[a].Name
+			sc.Plugins[b].Inst = b
+			sc.Plugins[b].StartFail = sc.Plugins[a].StartFail // one executable: it exists for both or for neither
+		}
 		genC17(sc)
 	} else if simrt.Flip("c16.host-fault", 0.2) {
 		// the host itself has a reason to fail, next to whatever the plugins do: every
@@ -342,10 +350,23 @@ func RunOne(cfg simrt.Config, o world.Opts) *world.Result {
 			panic(err)
 		}
 		before = world.Snapshot(env.Root)
+		mains := map[string]map[int]func(p *simrt.Process) int{} // name -> instance -> main
 		for _, ps := range sc.Plugins {
 			ps := ps
 			log := &PlugLog{Script: ps}
 			logs = append(logs, log)
+			var main func(p *simrt.Process) int
+			if ps.Conforming {
+				main = conformingMain(ps, log)
+			} else {
+				main = scriptedMain(ps, log)
+			}
+			if mains[ps.Name] != nil {
+				mains[ps.Name][ps.Inst] = main // a further instance of an executable already registered
+				continue
+			}
+			byInst := map[int]func(p *simrt.Process) int{ps.Inst: main}
+			mains[ps.Name] = byInst
 			entry := simrt.ExecEntry{Name: "thriftrw-plugin-" + ps.Name}
 			switch ps.StartFail {
 			case 1:
@@ -353,10 +374,15 @@ func RunOne(cfg simrt.Config, o world.Opts) *world.Result {
 			case 2:
 				entry.StartErr = syscall.EAGAIN
 			}
-			if ps.Conforming {
-				entry.Main = conformingMain(ps, log)
-			} else {
-				entry.Main = scriptedMain(ps, log)
+			entry.Main = func(p *simrt.Process) int {
+				inst := 0
+				for _, a := range p.Args {
+					fmt.Sscanf(a, "--instance=%d", &inst)
+				}
+				if m := byInst[inst]; m != nil {
+					return m(p)
+				}
+				return 127
 			}
 			s.RegisterExec(entry)
 		}
@@ -371,7 +397,11 @@ func RunOne(cfg simrt.Config, o world.Opts) *world.Result {
 			args = append(args, "--output-file", sc.OutputFile)
 		}
 		for _, ps := range sc.Plugins {
-			args = append(args, "-p", ps.Name)
+			if ps.Inst > 0 {
+				args = append(args, "-p", fmt.Sprintf("%s --instance=%d", ps.Name, ps.Inst))
+			} else {
+				args = append(args, "-p", ps.Name)
+			}
 		}
 		if sc.PluginAPI {
 			args = append(args, "--generate-plugin-api")
